@@ -44,6 +44,7 @@ TIE = {
  "C10": "`delete` (both backends), the `resolve`/`resolve_mut` walks, `Index::from_str`, `Index::for_len` (`assign` is not translated)",
  "C06": "the `expand` helper of `assign` (both backends), Index::from_str and Index::for_len_incl (`assign_value` itself is not translated)",
  "C07": "the `expand` helper of `assign` (both backends), Index::from_str and Index::for_len_incl (`assign_value` itself is not translated)",
+ "C17": "the 17 hand-written `PartialEq` impls and the 15 `PartialOrd` impls between Pointer, &Pointer, PointerBuf, str, &str and String (one function per impl block)",
  "C19": "the token, range-slicing, splitting and prefix/suffix functions listed for C03, C12, C13, C04",
 }
 def tie_text(pid):
